@@ -419,6 +419,55 @@ class _Idioms(ast.NodeTransformer):
             return ast.Dict(keys=[ast.Constant(k.arg) for k in n.keywords], values=[k.value for k in n.keywords])
         return n
 
+    # ---- boolean contexts (tests): only truthiness matters there
+    def _truth(self, e: ast.AST) -> ast.AST:
+        "simplify an (already visited) expression whose value is only tested for truth"
+        if isinstance(e, ast.BoolOp):
+            vals = []
+            for v in e.values:
+                v = self._truth(v)
+                if isinstance(v, ast.BoolOp) and type(v.op) is type(e.op):
+                    vals.extend(v.values)
+                else:
+                    vals.append(v)
+            return ast.BoolOp(op=e.op, values=vals)
+        if isinstance(e, ast.UnaryOp) and isinstance(e.op, ast.Not):
+            return self.visit_UnaryOp(ast.UnaryOp(op=ast.Not(), operand=self._truth(e.operand)))
+        if isinstance(e, ast.Call) and dotted_of(e.func) == "bool" and len(e.args) == 1 and not e.keywords:
+            return self._truth(e.args[0])
+        if isinstance(e, ast.IfExp):
+            c, a, b = e.test, e.body, e.orelse
+            neg = lambda x: self.visit_UnaryOp(ast.UnaryOp(op=ast.Not(), operand=x))
+            if isinstance(a, ast.Constant) and a.value is False:      # False if c else b  ==  not c and b
+                return self._truth(ast.BoolOp(op=ast.And(), values=[neg(c), b]))
+            if isinstance(a, ast.Constant) and a.value is True:       # True if c else b   ==  c or b
+                return self._truth(ast.BoolOp(op=ast.Or(), values=[c, b]))
+            if isinstance(b, ast.Constant) and b.value is False:      # a if c else False  ==  c and a
+                return self._truth(ast.BoolOp(op=ast.And(), values=[c, a]))
+            if isinstance(b, ast.Constant) and b.value is True:       # a if c else True   ==  not c or a
+                return self._truth(ast.BoolOp(op=ast.Or(), values=[neg(c), a]))
+        return e
+
+    def visit_If(self, n: ast.If):
+        self.generic_visit(n)
+        n.test = self._truth(n.test)
+        return n
+
+    def visit_While(self, n: ast.While):
+        self.generic_visit(n)
+        n.test = self._truth(n.test)
+        return n
+
+    def visit_Assert(self, n: ast.Assert):
+        self.generic_visit(n)
+        n.test = self._truth(n.test)
+        return n
+
+    def visit_comprehension(self, n: ast.comprehension):
+        self.generic_visit(n)
+        n.ifs = [self._truth(t) for t in n.ifs]
+        return n
+
     @staticmethod
     def _as_map(n):
         "`f(x) for x in xs` (one generator, no filter, f independent of x) -> map(f, xs)"
@@ -440,6 +489,7 @@ class _Idioms(ast.NodeTransformer):
 
     def visit_IfExp(self, n: ast.IfExp):
         self.generic_visit(n)
+        n.test = self._truth(n.test)
         # `d[k] if k in d else V` -> `d.get(k, V)` (V an empty display / constant: eager evaluation is unobservable)
         t = n.test
         if isinstance(t, ast.Compare) and len(t.ops) == 1 and isinstance(t.ops[0], ast.In) and isinstance(n.body, ast.Subscript) \
